@@ -363,8 +363,29 @@ func (w *seqWorld) read(kind string, c cid.Cid, fn string, cbFails bool) {
 	if cbFails {
 		extra = " (callback returns an error)"
 	}
+	rf := w.mode.writeFaults && c.Defined() && w.r.Chance(1, 6)
+	if rf {
+		extra += "   [armed datastore fault: the next datastore read fails once]"
+		w.s.fds.readFault.Store(true)
+	}
 	k.Logf("%s %s %s%s", kind, fn, short(c), extra)
 	got := doRead(w.ctx, w.s.top, kind, c, cbFails)
+	if rf && !w.s.fds.readFault.Swap(false) {
+		// The datastore read failed inside this call. The uncached store
+		// would have returned that error; the cached one may return it or a
+		// correct cached answer, and must not remember anything wrong.
+		k.Logf("  -> datastore read fault fired; %s returned %s", kind, got)
+		k.C.Count("read_faults_fired", 1)
+		w.sawFaultEff = true
+		if !strings.HasPrefix(got.errCls, "other:") {
+			want := doRead(w.ctx, w.s.ref, kind, c, cbFails)
+			if d := diffRead(kind, got, want); d != "" {
+				k.Fail("rfault/"+kind+"/"+d+"/"+w.layerOf(c, d), "a call during which a datastore read failed returns the error or the correct answer", "error or "+want.String(), got.String())
+			}
+		}
+		w.verifyAll("rfault/"+kind+":after", "")
+		return
+	}
 	want := doRead(w.ctx, w.s.ref, kind, c, cbFails)
 	twin := doRead(w.ctx, w.twin, kind, c, cbFails)
 	k.C.Count("seq_reads_compared", 1)
